@@ -8,6 +8,7 @@ import (
 	"github.com/ethereum/go-ethereum/common"
 
 	clienttypes "github.com/bianjieai/tibc-go/modules/tibc/core/02-client/types"
+	"github.com/bianjieai/tibc-go/modules/tibc/core/exported"
 	bscclient "github.com/bianjieai/tibc-go/modules/tibc/light-clients/08-bsc/types"
 	ethclient "github.com/bianjieai/tibc-go/modules/tibc/light-clients/09-eth/types"
 
@@ -134,6 +135,14 @@ func (f *EthFeed) Next(c *core.Ctx, w *world.World, root []byte) (*ethclient.Hea
 }
 
 func init() {
+	// C15: payloads of another client type for create / upgrade requests
+	AltClientBuilders = append(AltClientBuilders, func(c *core.Ctx) (exported.ClientState, exported.ConsensusState, string) {
+		epoch := uint64(c.Ch.Range(5, 12))
+		chain, err := bsc.NewChain(c.Ch, bsc.Config{ChainID: 56, Epoch: epoch, Start: epoch * 1000, InitialSize: 3, StartTime: uint64(world.BaseTime.Unix())})
+		c.Check(err)
+		cs, cons := chain.InitialClient()
+		return cs, cons, "008-bsc"
+	})
 	// C16: the exported chain also carries a BSC and an ETH client with history
 	ExtraClientSetups = append(ExtraClientSetups, func(c *core.Ctx, w *world.World, n *world.Node) {
 		b := AddBscClient(c, w, n, "bsc-chain1", 0)
